@@ -66,18 +66,28 @@ def dev_bonly(C, P, RULE):
     # the any() must range over the merge list: its closure compares against merge_b; structurally: the iterated slice derefs Lm
     def any_over_merge(p):
         from flow import defs_of
-        o = me.blocks[p[0]]['term']['args'][0]
-        for _ in range(12):
-            l = root_local(me, o)
+        work = [me.blocks[p[0]]['term']['args'][0]]
+        seen = set()
+        while work:
+            o = work.pop()
+            if not is_local_op(o):
+                continue
+            l = o['l']
             if l == Lm:
                 return True
-            ds = defs_of(me, l) if l is not None else []
-            if len(ds) == 1 and ds[0][1]['k'] == 'call' and ds[0][1]['args']:
-                o = ds[0][1]['args'][0]
-            else:
-                return False
+            if l in seen:
+                continue
+            seen.add(l)
+            for q, st in defs_of(me, l):
+                if st['k'] == 'call' and st['args']:
+                    work.append(st['args'][0])              # the receiver of iter() / deref() / as_slice() ...
+                elif st['k'] == 'assign' and st['rv']['k'] in ('use', 'cast'):
+                    work.append(st['rv']['o'])
+                elif st['k'] == 'assign' and st['rv']['k'] in ('ref', 'rawptr'):
+                    work.append({'l': st['rv']['pl']['l'], 'p': []})
         return False
-    anys = [p for p in anys if any_over_merge(p)]
+    from flow import source_locals as _sl
+    anys = [p for p in anys if any_over_merge(p) or Lm in _sl(me, me.blocks[p[0]]['term']['args'][0], depth=14)]
     for i, a in enumerate(sorted(adds_b)):
         ok = any(guarded_by_true(me, a, p, negate=True) for p in anys)
         ta = me.blocks[a[0]]['term']
